@@ -176,8 +176,11 @@ def vtok(v):
     if v[0] == 'fn':
         return ["F", v[1]]
     if v[0] == 'struct':
-        out = ["S", str(len(v[1]))]
-        for k, x in v[1]:
+        # a janet struct drops keys bound to nil; keys in janet_compare order (numbers before strings), the order in
+        # which the harness dumps struct constants
+        kvs = [(k, x) for k, x in v[1] if x is not None]
+        out = ["S", str(len(kvs))]
+        for k, x in sorted(kvs, key=lambda kv: (0, kv[0], b"") if isinstance(kv[0], int) else (1, 0, kv[0])):
             out += vtok(k) + vtok(x)
         return out
     raise ValueError(v)
